@@ -40,6 +40,8 @@ def run(ctx):
                       "and the constructor records refs[name] = ref under exactly `ref is not None`", floor=2)
     ctx.rule("R08.e", "_sync_refs re-resolves exactly the links one of whose dependencies matches one of the delivered events by (owner identity, name) -- decided by abstract "
                       "interpretation on every non-empty event subset of a two-parameter source with three links (exhaustive for that configuration)", floor=1)
+    ctx.rule("R08.f", "the update context manager relinks on exit: Parameters.update, interpreted abstractly on six call forms (keywords / dict / dict+keywords / pairs / pairs+keywords), "
+                      "hands the restorer the stored reference of every given parameter that has a link or a pending asynchronous reference", floor=1)
     ctx.rule("R08.m", "setter model: Parameter.__set__ interpreted abstractly on every combination (576) of route x constant/readonly x validation outcome x identity x reference mode x watchers x batching agrees with the specification of this property (see checks/setter_model.py)", floor=1)
     ctx.not_decided += ["that the parameter equals the reference's resolved value after arbitrary source histories (needs execution)"]
 
@@ -251,6 +253,57 @@ def run(ctx):
     else:
         ctx.ok("R08.e", sr, sr.node, "%d/%d event sets: exactly the links with a matching dependency are re-resolved (a link on another owner with the same name is not)" % (n_cases, n_cases))
 
+    # ------------------------------------------------------------- R08.f
+    # `with obj.param.update(...)`: whatever form the values are given in, the restorer is told the
+    # reference of every given parameter that is currently linked, so leaving the block relinks it
+    up = ctx.repo.method(PARAMETERS, "update")
+    ra, rb = Obj("ref_of_a"), Obj("pending_async_ref_of_b")
+    va, vb, vc = Obj("value_a"), Obj("value_b"), Obj("value_c")
+    UNDEF = Obj("Undefined")
+    forms = {
+        "update(a=.., b=.., c=..)": (UNDEF, {"a": va, "b": vb, "c": vc}),
+        "update({a, b, c})": ({"a": va, "b": vb, "c": vc}, {}),
+        "update({c}, a=.., b=..)": ({"c": vc}, {"a": va, "b": vb}),
+        "update({a}, b=..)": ({"a": va}, {"b": vb}),
+        "update([(a, ..), (b, ..)])": ([("a", va), ("b", vb)], {}),
+        "update([(c, ..)], a=..)": ([("c", vc)], {"a": va}),
+    }
+    n_f, badf = 0, []
+    for desc, (arg, kw) in forms.items():
+        seen = {}
+
+        def hook2(fn, args, kwargs):
+            if fn == "_ParametersRestorer":
+                seen["refs"] = kwargs.get("refs")
+                return Obj("restorer")
+            if fn.endswith("._update"):
+                return {}
+            return NotImplemented
+        inst = Obj("target", _param__private=Obj("private", refs={"a": ra}, async_refs={"b": rb}))
+        ns = Obj("ns", self=inst)
+        it = Interp(ctx.hier, call_hook=hook2, globals={"Undefined": UNDEF}, strict_self_calls=True)
+        try:
+            outs = it.run_all(up, {"self_": ns, "arg": arg, "kwargs": dict(kw)})
+        except Unsupported as e:
+            raise AnalysisError("absint cannot interpret Parameters.update: %s -- R08.f cannot decide" % e)
+        n_f += 1
+        if len(outs) != 1 or outs[0].imprecise or outs[0].kind != "return":
+            raise AnalysisError("absint imprecise on Parameters.update (%s): %s -- R08.f cannot decide" % (desc, outs[0].notes[:2] if outs else "no outcome"))
+        given = set(kw) | (set(arg) if isinstance(arg, dict) else {k for k, _ in arg} if isinstance(arg, list) else set())
+        want = {k: r for k, r in (("a", ra), ("b", rb)) if k in given}
+        got = seen.get("refs")
+        if not isinstance(got, dict) or set(got) != set(want) or any(got[k] is not want[k] for k in want):
+            badf.append((desc, sorted(got) if isinstance(got, dict) else got, sorted(want)))
+    ctx.abstract_cases += n_f
+    if badf:
+        ctx.fail("R08.f", up, up.node, "`with obj.param.%s` remembers the links of %s, specification %s (a is linked, b has a pending asynchronous reference): the parameter overridden "
+                 "for the block gets its old plain value back on exit but not its link" % badf[0], key=up.qualname + "::restorer-refs",
+                 input="t = T(x=s.param.v); with t.param.update({'y': 1}, x=5): pass; s.v = 7 -> t.x stays stale")
+    else:
+        ctx.ok("R08.f", up, up.node, "%d call forms (keywords, dict, dict+keywords, pairs, pairs+keywords): the restorer receives the reference of every given linked parameter" % n_f)
+
+    from checks.shared import syncing_set_replaced
+    syncing_set_replaced(ctx, "R08.c")
     # the scope that marks the sync's own writes must itself be exception safe
     # (an instance of R05.a/R05.b on the syncing set): a leaked marker makes every
     # later override look like a sync write, so the link never ends
